@@ -425,17 +425,8 @@ def h_index(vf, node, fn, args):
 
 
 def len_term(t):
-    if T.is_app(t, 'array'):
-        return T.num(len(t[2]))
-    if T.is_app(t, 'comp'):
-        return t[2][0]
-    if T.is_app(t, 'repeat'):
-        return t[2][1]
-    if T.is_app(t, 'push'):
-        return T.add(len_term(t[2][0]), T.ONE)
-    if T.is_app(t, 'upd'):
-        return len_term(t[2][0])
-    return T.app('len', t)
+    from .vflow import seq_len
+    return seq_len(t)
 
 
 @reg('SHAPE', 'std::vec::Vec::len', 'core::slice::len', 'ndarray::ArrayBase::len', 'std::collections::VecDeque::len')
